@@ -8,7 +8,7 @@ What the rewritten record decodes to is what the original record decodes to, wit
 plan's glyph map: the outline of a kept glyph is preserved by construction, not only on the sampled fonts.
 (Proofs: Lemmas/SubsetOutline.lean … SubsetOutline7.lean.)
 -/
-import FontVerif.Lemmas.SubsetOutline7
+import FontVerif.Lemmas.SubsetOutline8
 set_option linter.unusedVariables false
 namespace FontVerif.C17Outline
 open FontVerif FontVerif.Subset FontVerif.SubsetOutline
@@ -76,6 +76,17 @@ theorem subset_glyph_decodes_equal (flags : Nat) (gmap : Nat → Option Nat) (d 
     ∃ g g', decodeGlyph d = some g ∧ decodeGlyph out = some g' ∧ renameDecoded flags gmap g = some g' :=
   glyph_decodes_equal flags gmap d out hb h hne
 
+/-- **simple_glyph_emptied_only_if_undecodable.**  The other direction for simple glyphs: a record with at least one
+contour that read-fonts parses is written EMPTY by `subset_glyph` only if read-fonts' checked point reader
+(`points()`: `resolve_coords_len` + the length check) yields no points for it — the flag runs do not cover exactly the
+point count (too few flags, a repeat run that overshoots, a repeat flag without its count) or the coordinate bytes are
+cut short.  (The lenient `read_points_fast` clamps an overshooting repeat run and still draws such a record: known
+finding `C17-repeat-overshoot-glyph-emptied`, behaviour copied from HarfBuzz's `trim_padding`.) -/
+theorem simple_glyph_emptied_only_if_undecodable (flags : Nat) (gmap : Nat → Option Nat) (d : Bytes)
+    (hs : u16At d 0 < 32768) (hnc : u16At d 0 ≠ 0) (h : subsetGlyphBytes flags gmap d = .bytes []) :
+    ∃ v, Glyf.readSimple d = some v ∧ v.points = [] :=
+  simple_emptied_undecodable flags gmap d hs hnc h
+
 /-! ## non-vacuity -/
 
 /-- a 1-contour glyph with 3 points (flag 0x37 repeated twice: short positive x and y deltas), one instruction byte
@@ -108,5 +119,9 @@ example : decodeGlyph exComposite = some (.composite 0 0 9 9
 
 /-- the hypothesis of the `read_points_fast` clause is satisfiable (3 points, 2 flag bytes) -/
 example : Glyf.resolveCoordsLen [0x3F, 2, 1, 2, 3, 4, 5, 6, 0, 0] 0 3 0 0 = some (2, 3, 3) := by decide
+
+/-- `simple_glyph_emptied_only_if_undecodable` has instances: 4 points, one repeat run of 5 -/
+example : subsetGlyphBytes 0 (fun _ => none) [0, 1, 0, 0, 0, 0, 0, 9, 0, 9, 0, 3, 0, 0, 0x3F, 4, 1, 2, 3, 4, 5, 6, 7, 8, 0, 0] =
+    .bytes [] := by decide
 
 end FontVerif.C17Outline
